@@ -1,1 +1,3 @@
 import HvAlg.Model.Algebra
+import HvAlg.Model.Semiring
+import HvAlg.Gen.Composites
